@@ -1,6 +1,6 @@
 /-
 C12 — helper lemmas: the compile-time stage (`mkRatio`, `ratioDivide`, `commonTy`, `castCtx`, `pairCtx`)
-evaluates to the expected constants; integer facts about truncating division.
+evaluates to the expected constants; integer facts about truncating division; the scalar operators.
 -/
 import Mathlib.Data.Rat.Floor
 import Mathlib.Tactic.Ring
@@ -870,5 +870,108 @@ theorem cmod_ok (t : ITy) (a b : Int) (hb : b ≠ 0) (hex : ¬ (a = t.min ∧ b 
       · have : (b == -1) = false := by simpa using h
         simp [this]
     rw [this]; simp
+
+/-! ## duration and a tick count -/
+
+/-- `CR op Rep2` with `CR = common_type_t<Rep1, Rep2>` is evaluated in `CR` -/
+theorem usual_common {a b : ITy} (ha : RepOk a) (hb : RepOk b) : ITy.usual (ITy.common a b) b = ITy.common a b := by
+  have pa := repOk_promote ha
+  have pb := repOk_promote hb
+  obtain ⟨hsa, ha1, ha2⟩ := ha
+  obtain ⟨hsb, hb1, hb2⟩ := hb
+  unfold ITy.common
+  by_cases hab : a = b
+  · subst hab
+    have : (a == a) = true := (ity_beq a a).mpr rfl
+    simp only [this, if_true]
+    unfold ITy.usual
+    simp only [pa, hsa, beq_self_eq_true, if_true, ge_iff_le, Nat.le_refl]
+  · have : (a == b) = false := (ity_beq_false a b).mpr hab
+    simp only [this, Bool.false_eq_true, if_false]
+    unfold ITy.usual
+    simp only [pa, pb, hsa, hsb, beq_self_eq_true, if_true]
+    by_cases hw : a.w ≥ b.w
+    · simp only [if_pos hw, pa, hsa, beq_self_eq_true, if_true]
+    · simp only [if_neg hw, pb, hsb, beq_self_eq_true, if_true, ge_iff_le, Nat.le_refl]
+
+theorem inR_sub_common_r {a b : ITy} (ha : RepOk a) (hb : RepOk b) (x : Int) (hx : b.inR x = true) :
+    (ITy.common a b).inR x = true := by
+  obtain ⟨⟨hs, h1, h2⟩, _, hwb⟩ := common_repOk ha hb
+  obtain ⟨hsb, hb1, hb2⟩ := hb
+  generalize ITy.common a b = c at *
+  rw [inR_iff] at hx ⊢
+  unfold ITy.min ITy.max at hx ⊢
+  simp only [hs, hsb, if_true] at hx ⊢
+  have hp : (2:Int) ^ (b.w - 1) ≤ 2 ^ (c.w - 1) := pow_mono _ _ (by omega)
+  omega
+
+/-- `|l % r| ≤ |l|`: the remainder is a value of the type of the dividend -/
+theorem tmod_inR (t : ITy) (l r : Int) (hl : t.inR l = true) : t.inR (Int.tmod l r) = true := by
+  rw [inR_iff] at hl ⊢
+  have hmm := min_max_zero t
+  rcases Int.le_total 0 l with h0 | h0
+  · have := Int.tmod_nonneg r h0
+    have : Int.tmod l r ≤ l := tmod_le_self l r h0
+    omega
+  · have h1 : Int.tmod (-l) r = -(Int.tmod l r) := Int.neg_tmod ..
+    have := Int.tmod_nonneg r (by omega : 0 ≤ -l)
+    have : Int.tmod (-l) r ≤ -l := tmod_le_self (-l) r (by omega)
+    omega
+
+/-- static preconditions of `duration<Rep1, Period> op Rep2` -/
+def ScalarTyOk (d : DurTy) (rs : ITy) : Prop := RepOk d.rep ∧ RepOk rs ∧ PerOk d.per ∧ DivOk d.per d.per
+instance (d : DurTy) (rs : ITy) : Decidable (ScalarTyOk d rs) := by unfold ScalarTyOk; infer_instance
+
+/-- the static context of `duration<Rep1, Period> op Rep2`: the conversion `CD(d)` keeps the period -/
+def scalarK (d : DurTy) (rs : ITy) : ScalarCtx :=
+  ⟨⟨ITy.common d.rep rs, d.per⟩, ⟨ITy.common d.rep rs, imax, ⟨1, 1⟩⟩, rs⟩
+
+theorem scalarCtx_eq (d : DurTy) (rs : ITy) (h : ScalarTyOk d rs) : scalarCtx d rs = .ok (scalarK d rs) := by
+  obtain ⟨hr, hs, hp, hdiv⟩ := h
+  have hc := (common_repOk hr hs).1
+  unfold scalarCtx
+  simp only
+  rw [castCtx_eq ⟨ITy.common d.rep rs, d.per⟩ d hc hr hp hp hdiv]
+  simp only [bind, Except.bind, (cf_self _ hp).1, (cf_self _ hp).2]
+  rfl
+
+/-- the three run-time facts every scalar operator starts from: `CD(d).count()` is the count, and both operands are
+    values of the type the operator is evaluated in -/
+theorem scalar_operands (d : DurTy) (rs : ITy) (h : ScalarTyOk d rs) (c s : Int) (hc : d.rep.inR c = true)
+    (hs : rs.inR s = true) :
+    convertCore (scalarK d rs).k c = .ok c ∧ ITy.usual (scalarK d rs).cd.rep (scalarK d rs).rs = ITy.common d.rep rs ∧
+      (ITy.common d.rep rs).conv c = c ∧ (ITy.common d.rep rs).conv s = s := by
+  obtain ⟨hr, hrs, hp, hdiv⟩ := h
+  have hcr := (common_repOk hr hrs).1
+  have hc' := inR_sub_common hr hrs c hc
+  have hs' := inR_sub_common_r hr hrs s hs
+  refine ⟨?_, usual_common hr hrs, conv_of_inR _ (repOk_w hcr) _ hc', conv_of_inR _ (repOk_w hcr) _ hs'⟩
+  have := convertCore_eq (ITy.common d.rep rs) hcr 1 (by decide) (by decide) c (repOk_sub hr c hc) (by rwa [Int.mul_one])
+  rwa [Int.mul_one] at this
+
+/-! ### the scalar operators in ℚ -/
+
+theorem spec_mulRep (p : ℚ) (hp : 0 < p) (c s : Int) : Spec.mulRep p c s = c * s := by
+  unfold Spec.mulRep Spec.inPeriod Spec.val
+  have : (c : ℚ) * p * (s : ℚ) / p = ((c * s : Int) : ℚ) := by push_cast; field_simp
+  rw [this, rat_floor_eq, Int.floor_intCast]
+
+theorem spec_divRep (p : ℚ) (hp : 0 < p) (c s : Int) (hs : s ≠ 0) : Spec.divRep p c s = Int.tdiv c s := by
+  unfold Spec.divRep Spec.val
+  rw [tdiv_trunc' c s hs]
+  congr 1
+  have : (s : ℚ) ≠ 0 := by exact_mod_cast hs
+  field_simp
+
+theorem spec_modRep (p : ℚ) (hp : 0 < p) (c s : Int) (hs : s ≠ 0) : Spec.modRep p c s = Int.tmod c s := by
+  unfold Spec.modRep
+  rw [spec_divRep p hp c s hs]
+  unfold Spec.inPeriod Spec.val
+  have hdef : Int.tmod c s = c - s * Int.tdiv c s := by
+    have := Int.tmod_add_mul_tdiv c s
+    omega
+  have : ((c : ℚ) * p - ((Int.tdiv c s : Int) : ℚ) * p * (s : ℚ)) / p = ((c - s * Int.tdiv c s : Int) : ℚ) := by
+    push_cast; field_simp
+  rw [this, rat_floor_eq, Int.floor_intCast, hdef]
 
 end Tetl.C12
